@@ -35,7 +35,7 @@ Definition check_off (off : Z) : bool :=
 
 Lemma check_off_sweep :
   forallb check_off (zrange (-90000) (Z.to_nat 180001)) = true.
-Proof. vm_compute; reflexivity. Qed.
+Proof. vm_cast_no_check (eq_refl true). Qed. (* evaluated once, by the kernel's VM, at Qed *)
 
 Lemma fixed_exhaustive_lemma : forall off, -90000 <= off <= 90000 ->
   FixedOffsetToName off = OK (fixed_name_spec off) /\
